@@ -64,8 +64,10 @@ Definition dec_inv (v : N) (b : body) : Prop :=
   match b with
   | BConnack ver code sp pr => ver = v /\ code < 256 /\ oprops_inv v CONNACK pr
   | BPublish ver dup qos retain topic pid payload pr =>
-      ver = v /\ qos <= 2 /\ negb ((qos =? 0) && dup) = true /\ istr_ok topic = true /\ impl_name topic = true
-      /\ pid < 65536 /\ (qos = 0 -> pid = 0) /\ oprops_inv v PUBLISH pr /\ pub_topic_ok v topic pr = true
+      ver = v /\ qos <= 2 /\ negb ((qos =? 0) && dup) = true /\ istr_ok topic = true
+      /\ (topic = [] \/ impl_name topic = true)
+      /\ pid < 65536 /\ (qos = 0 -> pid = 0) /\ (qos <> 0 -> pid <> 0)
+      /\ oprops_inv v PUBLISH pr /\ pub_topic_ok v topic pr = true
   | BAck t ver pid code pr =>
       (t = PUBACK \/ t = PUBREC \/ t = PUBCOMP) /\ ver = v /\ pid < 65536 /\ ack_inv (v =? 5) t code pr
   | BPubrel pid code pr => pid < 65536 /\ ack_inv true PUBREL code pr
@@ -101,22 +103,27 @@ Lemma rt_publish : forall v dup qos retain topic pid payload pr t fl bytes,
   t = PUBLISH /\ fl < 16 /\ publish_flags fl = Ok (dup, qos, retain)
   /\ parse_publish v dup qos retain bytes = Ok (BPublish v dup qos retain topic pid payload pr).
 Proof.
-  intros v dup qos retain topic pid payload pr t fl bytes (_ & Hq & Hd & Ht & Hn & Hp & Hp0 & Hpr & Htok) Hpack Hlen.
+  intros v dup qos retain topic pid payload pr t fl bytes (_ & Hq & Hd & Ht & Hn & Hp & Hp0 & Hp1 & Hpr & Htok) Hpack Hlen.
   unfold pub_topic_ok in Htok. apply negb_true_iff in Htok.
   cbn [pack_body] in Hpack. apply ok3_inj in Hpack; destruct Hpack as (<- & <- & <-).
   destruct (publish_flags_rt dup qos retain Hq Hd) as [Hf Hlt].
   split; [reflexivity|]. split; [assumption|]. split; [assumption|].
   unfold parse_publish. rewrite istr_ok_rt by assumption. cbn [bind].
-  rewrite impl_name_true by assumption. cbn [bind negb].
-  assert (Hpid : (if 0 <? qos then read_uint16 ((if (qos =? 1) || (qos =? 2) then put16 pid else []) ++
-                    (if v =? 5 then props_pack pr else []) ++ payload)
-                  else Ok (0, (if (qos =? 1) || (qos =? 2) then put16 pid else []) ++ (if v =? 5 then props_pack pr else []) ++ payload))
-                 = Ok (pid, (if v =? 5 then props_pack pr else []) ++ payload)).
+  assert (Hname : (if len topic =? 0 then Ok true else valid_topic_name_impl true topic) = Ok true).
+  { destruct Hn as [->|Hn]; [reflexivity|]. destruct (len topic =? 0); [reflexivity|now apply impl_name_true]. }
+  rewrite Hname. cbn [bind negb].
+  set (tail := (if v =? 5 then props_pack pr else []) ++ payload).
+  assert (Hpid : (if 0 <? qos then
+                    do '(i, b') <- read_uint16 ((if (qos =? 1) || (qos =? 2) then put16 pid else []) ++ tail);
+                    if i =? 0 then Err PROTOCOL else Ok (i, b')
+                  else Ok (0, (if (qos =? 1) || (qos =? 2) then put16 pid else []) ++ tail))
+                 = Ok (pid, tail)).
   { destruct (N.eqb_spec qos 0) as [->|Hq0].
     - cbn. rewrite Hp0 by reflexivity. reflexivity.
     - replace (0 <? qos) with true by lia. replace ((qos =? 1) || (qos =? 2)) with true by lia.
-      apply read_uint16_put16. assumption. }
-  rewrite Hpid. cbn [bind].
+      rewrite read_uint16_put16 by assumption. cbn [bind]. specialize (Hp1 Hq0).
+      replace (pid =? 0) with false by lia. reflexivity. }
+  rewrite Hpid. cbn [bind]. subst tail.
   unfold oprops_inv in Hpr. destruct (v =? 5) eqn:Ev.
   - destruct Hpr as [p [-> Hinv]]. rewrite props_rt; [|assumption|unfold BIG in Hlen; rewrite !len_app in Hlen; lia].
     cbn [bind]. rewrite Htok. reflexivity.
